@@ -141,8 +141,9 @@ def build(case_id):
             orig = pdrandom.rademacher
             if handler != "materialize":
                 def fake(key, /, shape, dtype):
-                    assert tuple(shape) == tuple(V.shape), (shape, V.shape)
-                    return V.astype(dtype)
+                    # hand out the symbolic probes; a request for fewer rows gets the leading ones
+                    assert len(shape) == V.ndim and all(a <= b for a, b in zip(shape, V.shape)), (shape, V.shape)
+                    return V[tuple(slice(0, a) for a in shape)].astype(dtype)
                 pdrandom.rademacher = fake
             try:
                 f = lambda s: fun_eval(co, s)   # noqa: E731
@@ -154,12 +155,17 @@ def build(case_id):
                     fx, J, st = h.calculate_diagonal_along_d(f, x, state)
             finally:
                 pdrandom.rademacher = orig
-            return fx, J
+            if handler == "materialize":
+                adv = jnp.asarray(1.0)
+            else:
+                import jax
+                adv = jnp.any(jax.random.key_data(st) != jax.random.key_data(state)).astype(float)
+            return fx, J, adv
         return fn, (co, x, V)
 
     def goals(args, out, orc):
         co, x, V = args
-        fx, J = out
+        fx, J, adv = out
         sym = orc.sym
         co = {k: orc.arr(v) for k, v in co.items()}
         x = orc.arr(x)
@@ -181,6 +187,9 @@ def build(case_id):
                     for n in range(ni):
                         want[a, m, n] = Jo[m, a, n, a]
         res = {"value": (orc.arr(fx), fun_eval(co, x))}
+        if handler != "materialize" and op != "dense":
+            # only the calls that draw probes consume randomness (materialize_dense of the stochastic handlers draws none)
+            res["handler state (PRNG key) advanced by the call [concrete]"] = (orc.arr(adv), orc.arr(np.asarray(1.0)))
         Jimpl = orc.arr(J)
         if handler == "materialize" or op == "dense":
             res["jacobian"] = (Jimpl, want)
@@ -213,11 +222,11 @@ class MCCase(DCase):
         for signs in itertools.product((1.0, -1.0), repeat=len(vnames)):
             e = dict(env)
             e.update({n: s for n, s in zip(vnames, signs)})
-            fx, J = tr.run_real(e)
+            fx, J, _adv = tr.run_real(e)
             acc = np.asarray(J, dtype=float) if acc is None else acc + np.asarray(J, dtype=float)
         acc = acc / (2 ** len(vnames))
         af = self._float_args(args, env)
-        pairs = self.goals(af, (fx, acc), __import__("jxs.harness", fromlist=["Orc"]).Orc(None))
+        pairs = self.goals(af, (fx, acc, _adv), __import__("jxs.harness", fromlist=["Orc"]).Orc(None))
         # recompute the oracle block
         make, goals = build(self.id.split("/", 1)[1])
         from jxs.harness import Orc, close
